@@ -226,6 +226,10 @@ def make_case(case, ctx):
                         kinds.append('update_var_scalar')
             elif kind == 'edge' and spec['circ'].get('edges'):
                 e = rnd.choice(spec['circ']['edges'])
+                # (update_var addresses an edge by its (source, target) pair: with parallel edges between two variables the address is
+                # ambiguous - the property does not say which edge is meant -, so only pairs with a single edge are updated)
+                if sum(1 for x in spec['circ']['edges'] if x[0] == e[0] and x[1] == e[1]) > 1:
+                    continue
                 if not any(x[0] == e[0] and x[1] == e[1] for x in edge_updates):
                     tkeys = [k_ for k_ in e[3] if '/' in k_ and not isinstance(e[3][k_], str)]
                     if tkeys and rnd.random() < 0.6:
